@@ -128,8 +128,9 @@ def main():
         ],
         "checks": checks,
         "not_applicable": na,
-        "notes": "All checks: exit 0 held / 1 VIOLATION line / 2 harness or build trouble. VERIF_SEED selects the batch. "
-                 "fix: commits in /repo so far: " + "; ".join(fixes),
+        "notes": "All checks: exit 0 held / 1 VIOLATION line / 2 harness or build trouble. VERIF_SEED selects the batch; VERIF_REPO overrides /repo. "
+                 "Open known findings (KNOWN-FINDING lines, exit 0): see known_findings.json. Sensitivity: seeded/ (127 changes from independent sub-agents, 123 detected), "
+                 "benign/ (12 behaviour-preserving refactors, silent), tools/revert_fixes.sh. fix: commits in /repo: " + "; ".join(fixes),
     }
     with open(os.path.join(VERIF, "MANIFEST.json"), "w") as f:
         json.dump(man, f, indent=1)
